@@ -9,6 +9,10 @@ enum Mode {
     Class,
     /// equal to nothing, not even itself (NaN-like)
     Never,
+    /// symmetric, reflexive, NOT transitive: equal iff the classes differ by at most one
+    Near,
+    /// wildcard: equal to every element that is not NaN-like (symmetric, not transitive)
+    Wild,
 }
 
 #[derive(Clone, Debug)]
@@ -19,7 +23,12 @@ struct El {
 }
 impl PartialEq for El {
     fn eq(&self, o: &El) -> bool {
-        self.mode == Mode::Class && o.mode == Mode::Class && self.class == o.class
+        match (self.mode, o.mode) {
+            (Mode::Never, _) | (_, Mode::Never) => false,
+            (Mode::Wild, _) | (_, Mode::Wild) => true,
+            (Mode::Near, _) | (_, Mode::Near) => (self.class as i32 - o.class as i32).abs() <= 1,
+            (Mode::Class, Mode::Class) => self.class == o.class,
+        }
     }
 }
 
@@ -30,7 +39,7 @@ enum OpK {
 }
 
 fn play(hist: &[(OpK, u8, Mode)], r: &mut Report, rp: &dyn Fn() -> Json, stage: &str) {
-    let show = || hist.iter().map(|(o, c, m)| format!("{}({}{})", if matches!(o, OpK::Append) { "append" } else { "fetch_or_append" }, c, if *m == Mode::Never { "~nan" } else { "" })).collect::<Vec<_>>().join(" ");
+    let show = || hist.iter().map(|(o, c, m)| format!("{}({}{})", if matches!(o, OpK::Append) { "append" } else { "fetch_or_append" }, c, match m { Mode::Never => "~nan", Mode::Near => "~near", Mode::Wild => "~any", Mode::Class => "" })).collect::<Vec<_>>().join(" ");
     let mut st: Storage<El> = Storage::new();
     let mut model: Vec<El> = vec![];
     let mut tokens: Vec<Token<El>> = vec![];
@@ -103,35 +112,50 @@ fn gen_hist(rng: &mut Rng) -> Vec<(OpK, u8, Mode)> {
         _ => rng.range(80, 200),
     };
     let classes = rng.range(1, 8) as u8;
+    // equality style of this history: 0 exact classes, 1 near (non-transitive), 2 exact + wildcards, 3 mixed
+    let style = rng.below(4);
     (0..n)
         .map(|_| {
             let op = if rng.chance(1, 2) { OpK::Append } else { OpK::Fetch };
-            let mode = if rng.chance(1, 6) { Mode::Never } else { Mode::Class };
+            let mode = match (style, rng.below(12)) {
+                (_, 0) | (_, 1) => Mode::Never,
+                (1, _) => Mode::Near,
+                (2, 2) | (2, 3) => Mode::Wild,
+                (3, 2) => Mode::Wild,
+                (3, 3..=6) => Mode::Near,
+                _ => Mode::Class,
+            };
             (op, rng.below(classes as usize) as u8, mode)
         })
         .collect()
 }
 
 pub fn run(cfg: &Cfg, rep: &mut Report) {
-    rep.rule = "histories of append / fetch_or_append over elements with scripted equality (class equality ignoring a unique serial; NaN-like elements equal to nothing) replayed against a Vec model; after every operation the returned token index, its lookup and the lookups of ALL earlier tokens are compared; exhaustive over all histories up to length 7 (quick: 5) of {append,fetch} x 3 classes plus NaN-like, then random histories up to 200 operations. distinct_nontrivial = distinct histories (by length bucket and content hash)".into();
+    rep.rule = "histories of append / fetch_or_append over elements with scripted symmetric equality relations (class equality ignoring a unique serial; NaN-like elements equal to nothing; non-transitive 'near' equality; wildcards equal to everything) replayed against a Vec model; after every operation the returned token index, its lookup and the lookups of ALL earlier tokens are compared; exhaustive over all histories up to length 6 (quick: 4) of {append,fetch} x {3 classes, NaN-like, wildcard} under exact and under near equality, then random histories up to 200 operations. distinct_nontrivial = distinct histories (by length bucket and content hash)".into();
     let miri = cfg.mode == "miri";
-    // exhaustive small histories: alphabet of 8 symbols = {append, fetch} x {class0, class1, class2, nan}
-    let maxlen: u32 = if miri { 3 } else if cfg.tier_thorough { 7 } else { 5 };
-    let total: u64 = (1..=maxlen).map(|l| 8u64.pow(l)).sum();
-    run_stage(cfg, rep, "exhaustive", total, |idx, _rng, r| {
-        let mut rem = idx;
+    // exhaustive small histories: alphabet of 10 symbols = {append, fetch} x {class0, class1, class2, nan, wildcard},
+    // played twice: with exact class equality and with the non-transitive "near" equality
+    let maxlen: u32 = if miri { 3 } else if cfg.tier_thorough { 6 } else { 4 };
+    let total: u64 = (1..=maxlen).map(|l| 10u64.pow(l)).sum();
+    run_stage(cfg, rep, "exhaustive", total * 2, |idx, _rng, r| {
+        let near = idx >= total;
+        let mut rem = idx % total;
         let mut len = 1;
-        while rem >= 8u64.pow(len) {
-            rem -= 8u64.pow(len);
+        while rem >= 10u64.pow(len) {
+            rem -= 10u64.pow(len);
             len += 1;
         }
         let mut h = vec![];
         for _ in 0..len {
-            let s = rem % 8;
-            rem /= 8;
+            let s = rem % 10;
+            rem /= 10;
             let op = if s & 1 == 0 { OpK::Append } else { OpK::Fetch };
             let c = (s >> 1) as u8;
-            h.push(if c == 3 { (op, 0, Mode::Never) } else { (op, c, Mode::Class) });
+            h.push(match c {
+                3 => (op, 0, Mode::Never),
+                4 => (op, 0, Mode::Wild),
+                c => (op, c, if near { Mode::Near } else { Mode::Class }),
+            });
         }
         play(&h, r, &|| crate::util::replay_ref(cfg, "exhaustive", idx), "exhaustive");
     });
@@ -144,5 +168,5 @@ pub fn run(cfg: &Cfg, rep: &mut Report) {
         play(&h, r, &|| crate::util::replay_ref(cfg, "random", idx), "random");
     });
     rep.exhaustive = false;
-    rep.extra.push(("x_exhaustive_small_histories".into(), Json::obj().set("max_length", maxlen).set("histories", total)));
+    rep.extra.push(("x_exhaustive_small_histories".into(), Json::obj().set("max_length", maxlen).set("histories", total * 2)));
 }
